@@ -34,6 +34,7 @@ def check(rep, model, tier):
     rep.assumptions += ['equality of tables for all histories is reduced to: same callee, same arguments, no hidden state; values are not compared',
                         'compute_features is pure (C15)']
     summ, det, rounds, ro = common.effects(model)
+    default_agree(rep, model)
     init_store(rep, model)
     fit(rep, model)
     reduce_and_recompute(rep, model)
@@ -46,6 +47,37 @@ def check(rep, model, tier):
         if i['rule'] == 'DEFAULT-KEYS':
             i['rule'] = 'SHORTHAND'
     rep.floor('rule instances', len(rep.instances), 30)
+
+
+def default_agree(rep, model):
+    """an option omitted at the object front end means what it means in the functional API"""
+    import ast
+    rep.rule('DEFAULT-AGREE', 'the constructor defaults of Bycycle / BycycleGroup equal the defaults of compute_features for the options they share (thresholds <-> threshold_kwargs), '
+                              'and the group functions agree with compute_features on return_samples: omitting an option selects the same analysis through either API')
+    cf = model.find('compute_features')
+    pairs = {'center_extrema': 'center_extrema', 'burst_method': 'burst_method', 'burst_kwargs': 'burst_kwargs', 'thresholds': 'threshold_kwargs',
+             'find_extrema_kwargs': 'find_extrema_kwargs', 'return_samples': 'return_samples'}
+
+    def dv(fn, p):
+        d = fn.defaults.get(p)
+        return ast.unparse(d) if d is not None else '<required>'
+    for cls in (BASE, BY, GRP):
+        init = model.funcs.get(f'{cls}.__init__')
+        if init is None:
+            continue
+        site = f'{init.path}:{init.node.lineno} {cls.rsplit(".", 1)[1]}.__init__'
+        for p, q in pairs.items():
+            if p not in init.params:
+                continue
+            a, b = dv(init, p), dv(cf, q)
+            if a == b:
+                rep.ok('DEFAULT-AGREE', f'{cls.rsplit(".", 1)[1]}.__init__({p})', site, found=f'{a} == compute_features({q})')
+            else:
+                rep.violation('DEFAULT-AGREE', f'{cls.rsplit(".", 1)[1]}.__init__({p})', site, expected=f'{b} (default of compute_features {q})', found=a)
+    for g in ('compute_features_2d', 'compute_features_3d'):
+        gf = model.find(g)
+        a, b = dv(gf, 'return_samples'), dv(cf, 'return_samples')
+        (rep.ok if a == b else lambda *x, **k: rep.violation(*x[:3], expected=b, found=a))('DEFAULT-AGREE', f'{g}(return_samples)', f'{gf.path}:{gf.node.lineno} {g}', found=f'{a} == compute_features')
 
 
 def init_store(rep, model):
